@@ -156,7 +156,7 @@ CHECKS = {
         text=("No nondeterminism source other than the documented ones can reach state, traces or error texts: callers of rand are "
               "exactly the two seeding functions (feeding only registers/xmm_registers, called only by the constructor) and the pipe() "
               "hook; RandomState map iteration only in the debug renderers, outside the observable cone (which follows formatting arguments to "
-              "the crate's own fmt impls); no time/env/pid/address source; "
+              "the crate's own fmt impls); no time/env/pid/address source and no thread-local / static mutable state; "
               "every handler reads only its operands and architecturally implicit registers, step and the cone that builds error texts "
               "and traces read only RIP. "
               "Equality of two whole runs is declined."),
